@@ -32,11 +32,12 @@ type rig struct {
 
 	localDigest *pb.Digest // a blob stored locally (bystander of FindMissingBlobs requests)
 
-	panicSeen map[*lib.Server]int
-	mu        sync.Mutex
-	ran       map[string]int  // cases run so far, by "op/fault"
-	used      map[string]bool // keys handed out so far
-	lies      map[string]bool // keys for which the backend lied self-consistently (their cached form is not judged)
+	panicSeen  map[*lib.Server]int
+	mu         sync.Mutex
+	ran        map[string]int  // cases run so far, by "op/fault"
+	attributed int             // open backend connections already reported under a fault class
+	used       map[string]bool // keys handed out so far
+	lies       map[string]bool // keys for which the backend lied self-consistently (their cached form is not judged)
 }
 
 type rigDef struct {
